@@ -18,6 +18,7 @@ from __future__ import annotations
 import itertools
 
 from checks import c02, c04
+from vkit.harness import sq_drive
 from vkit.core import Sub, Violation, given_run
 from vkit.gen.choice import from_bytes
 from vkit.ref import execute as R5
@@ -380,16 +381,22 @@ def subchecks(tier):
                 # a slice of the 3-group graphs (forests with a grandchild / two children), no streams
                 Sub("work_queue_3g", _work_queue(3, 2, 0, 200, 4), shards=2, weight=1),
                 # 576 graphs with a chain of three fragments and a separate root, every order
-                Sub("work_queue_chain", _work_queue("chain", 3, 0, 600, 1), shards=1, weight=1)]
+                Sub("work_queue_chain", _work_queue("chain", 3, 0, 600, 1), shards=1, weight=1),
+                # the real StreamItemQueue alone: every fifth of the 39 936 specs with <= 3 items x completion
+                # orders (cap 24): delivery in list order without gaps or repeats, completeness, is_stopped()
+                Sub("stream_queue", sq_drive.subcheck("C05", 3, 24, 5), shards=3, weight=1)]
     return [Sub("end_to_end", _end_to_end(4000, 12), shards=16, weight=2),
             # all 139 376 graphs with <= 3 groups, <= 2 tasks, <= 1 stream (cap 400 orders per graph) and every
             # second of the 148 832 graphs with <= 2 groups, <= 2 tasks, <= 2 streams; both stop at the budget
             Sub("work_queue", _work_queue(3, 2, 1, 400, 1), shards=16, weight=2),
             Sub("work_queue_2s", _work_queue(2, 2, 2, 200, 2), shards=16, weight=1),
-            Sub("work_queue_chain", _work_queue("chain", 3, 0, 5000, 1), shards=4, weight=1)]
+            Sub("work_queue_chain", _work_queue("chain", 3, 0, 5000, 1), shards=4, weight=1),
+            Sub("stream_queue", sq_drive.subcheck("C05", 4, 120, 1), shards=16, weight=1)]
 
 
 def replay(case):
+    if "sq_spec" in case:
+        return sq_drive.replay(case, "C05")
     if "graph" in case:
         asm, sched, starts, err = run_graph(case["graph"], case["schedule"])
         out = []
